@@ -10,6 +10,7 @@ import (
 	"os/exec"
 	"strings"
 	"sync"
+	"syscall"
 	"time"
 )
 
@@ -238,8 +239,14 @@ func (w *worker) do(task []byte, timeout time.Duration) TaskOutcome {
 		}
 		return TaskOutcome{Result: json.RawMessage(bytes.TrimSpace(r.line))}
 	case <-timer:
+		// SIGQUIT first: the Go runtime then dumps every goroutine's stack, which says where the worker is stuck
+		_ = w.cmd.Process.Signal(syscall.SIGQUIT)
+		select {
+		case <-ch:
+		case <-time.After(3 * time.Second):
+		}
 		_ = w.cmd.Process.Kill()
-		return TaskOutcome{TimedOut: true, Stderr: tail(w.stderr.String(), 3000)}
+		return TaskOutcome{TimedOut: true, Stderr: tail(w.stderr.String(), 12000)}
 	}
 }
 
